@@ -375,6 +375,23 @@ func cmdSurvey(args []string) int {
 			}
 		}
 		if e.Status == "verified" {
+			// totality cannot rest on a callee that is only named, not specified (a trusted contract without
+			// postconditions says nothing about the callee returning at all)
+			for _, c := range u.Callees {
+				if cd := w.Contracts[c]; cd != nil && cd.Trusted {
+					hasEns := false
+					for _, cl := range cd.Clauses {
+						if cl.Kind == "ensures" {
+							hasEns = true
+						}
+					}
+					if !hasEns {
+						e.Status, e.Reason = "undecided", "calls "+c+", which is outside the verified subset (trusted, unspecified)"
+					}
+				}
+			}
+		}
+		if e.Status == "verified" {
 			pass++
 		}
 		out = append(out, e)
